@@ -5,7 +5,6 @@ import (
 	"math/big"
 	"strings"
 
-	"golang.org/x/tools/go/ssa"
 )
 
 // C12 — chromatic adaptation maps white to white and composes.
@@ -217,177 +216,285 @@ func runC13(p *Program, r *Report) {
 	if c, ok := constOf(p, "ciexyz", "constantE"); ok {
 		r.Check(c.Cmp(eps) == 0, rule, "constantE", "ciexyz/color.go", "= 216/24389 exactly", "constantE = "+c.RatString()+", CIE ε is 216/24389")
 	} else {
-		r.Undecide(rule, "constantE", "-", "constant not found")
+		r.Note(rule, "constantE", "-", "no constant of that name; ε is checked where it is used (guards, to 1e-15)")
 	}
 	if c, ok := constOf(p, "ciexyz", "constantK"); ok {
 		r.Check(c.Cmp(kap) == 0, rule, "constantK", "ciexyz/color.go", "= 24389/27 exactly", "constantK = "+c.RatString()+", CIE κ is 24389/27")
 	} else {
-		r.Undecide(rule, "constantK", "-", "constant not found")
+		r.Note(rule, "constantK", "-", "no constant of that name; κ is checked where it is used (linear branches, to 1e-12 relative)")
 	}
 	ke := new(big.Rat).Mul(eps, kap)
 	r.Check(ke.Cmp(big.NewRat(8, 1)) == 0, rule, "junction continuity", "-", "κ·ε = 8 and ((κε+16)/116)³ = (24/116)³ = ε: both branches meet at the junction exactly", "κ·ε ≠ 8")
 
 	tolC := ratDec("0.000000000000001") // constants as rounded to float64
-	epsF := func(f *Form) bool { c, ok := f.Const(); return ok && within(c, eps, tolC) }
 
-	// --- componentToLAB
-	ctl := p.Func("ciexyz", "componentToLAB")
-	cfl := p.Func("ciexyz", "componentFromLAB")
+	// The forward and inverse conversions are analysed with every prism helper
+	// inlined, so the rule sees the function ToLAB / ColorFromLAB computes and
+	// not how the work is split between helpers.
 	toLab := p.Method("ciexyz", "Color", "ToLAB")
 	fromLab := p.Func("ciexyz", "ColorFromLAB")
-	if ctl == nil || cfl == nil || toLab == nil || fromLab == nil {
-		r.Undecide("C13.fwd", "anchors", "-", "componentToLAB/componentFromLAB/ToLAB/ColorFromLAB not found")
+	if toLab == nil || fromLab == nil {
+		r.Undecide("C13.fwd", "anchors", "-", "ciexyz.Color.ToLAB / ciexyz.ColorFromLAB not found")
 		return
 	}
-	for _, f := range []*ssa.Function{ctl, cfl, toLab, fromLab} {
-		r.SawFn(shortFn(f))
+	r.SawFn(shortFn(toLab))
+	r.SawFn(shortFn(fromLab))
+	tolV := ratDec("0.000000000001")
+	third := big.NewRat(1, 3)
+	three := big.NewRat(3, 1)
+
+	// guard normalises a path condition to  lhs OP constant.
+	type guard struct {
+		lhs  *Form
+		gt   bool // true: lhs > c (or >=); false: lhs <= c (or <)
+		c    *big.Rat
+		text string
 	}
-	e := NewEngine(p)
-	outs, err := extract(p, e, ctl, nil)
-	if err != nil || len(outs) != 2 {
-		r.Violate("C13.fwd", "componentToLAB shape", p.FnPos(ctl), fmt.Sprintf("expected two branches (cube root / linear), got %d: %v", len(outs), err))
-	} else {
-		v, w := formAtom(ctl.Params[0].Name()), formAtom(ctl.Params[1].Name())
-		ratio := v.Div(w)
-		third := big.NewRat(1, 3)
-		for _, o := range outs {
-			if len(o.St.conds) != 1 {
-				r.Violate("C13.fwd", "componentToLAB guard", p.Pos(o.Pos), "branch has more than one guard")
+	normGuard := func(c *BoolVal) (guard, bool) {
+		a, _ := c.A.(*Form)
+		b, _ := c.B.(*Form)
+		if a == nil || b == nil {
+			return guard{}, false
+		}
+		op := c.Op
+		if _, isC := a.Const(); isC {
+			a, b = b, a
+			op = map[string]string{"<": ">", "<=": ">=", ">": "<", ">=": "<=", "==": "==", "!=": "!="}[op]
+		}
+		k, isC := b.Const()
+		if !isC {
+			return guard{}, false
+		}
+		switch op {
+		case ">", ">=":
+			return guard{a, true, k, c.Key()}, true
+		case "<", "<=":
+			return guard{a, false, k, c.Key()}, true
+		}
+		return guard{}, false
+	}
+	fracPows := func(e *Engine, fs ...*Form) map[string]*Atom {
+		out := map[string]*Atom{}
+		for _, f := range fs {
+			if f == nil {
 				continue
 			}
-			c := o.St.conds[0]
-			a, _ := c.A.(*Form)
-			b, _ := c.B.(*Form)
-			gOK := a != nil && b != nil && a.Equal(ratio) && epsF(b)
-			val, _ := o.Ret.(*Form)
-			switch c.Op {
-			case ">":
-				r.Check(gOK, "C13.fwd", "componentToLAB guard r>ε", p.Pos(o.Pos), "cube-root branch taken iff v/w > 216/24389", "guard is "+trunc(c.Key(), 200))
-				at := powAtom(e, val)
-				pOK := at != nil && valKey(at.Args[0]) == ratio.Key() && constNear(at.Args[1], third, tolC)
-				r.Check(pOK, "C13.fwd", "componentToLAB cube root", p.Pos(o.Pos), "= Pow(v/w, 1/3)", "value is "+trunc(valKey(o.Ret), 200))
-				// C13.nan: fractional power guarded by base > positive constant
-				r.Check(gOK && pOK, "C13.nan", "componentToLAB Pow guarded", p.Pos(o.Pos), "Pow(r, 1/3) only evaluated for r > ε > 0", "fractional power not guarded by a positive lower bound on its base")
-			case "<=":
-				r.Check(gOK, "C13.fwd", "componentToLAB guard r<=ε", p.Pos(o.Pos), "linear branch taken iff v/w <= 216/24389", "guard is "+trunc(c.Key(), 200))
-				want := ratio.Mul(formRat(kap)).Add(formInt(16)).Div(formInt(116))
-				r.Check(val != nil && formNear(val, want, ratDec("0.000000000001")), "C13.fwd", "componentToLAB linear", p.Pos(o.Pos), "= (κ·v/w + 16)/116", "value is "+trunc(valKey(o.Ret), 200))
-			default:
-				r.Violate("C13.fwd", "componentToLAB guard", p.Pos(o.Pos), "unexpected guard "+trunc(c.Key(), 200))
+			for a := range f.Atoms() {
+				at := e.A.get(a)
+				if at == nil {
+					continue
+				}
+				if at.Fn == "pow" && len(at.Args) == 2 {
+					if ex, ok := at.Args[1].(*Form); ok {
+						if c, isC := ex.Const(); isC && c.IsInt() {
+							continue
+						}
+					}
+					out[a] = at
+				}
+				if strings.HasSuffix(at.Fn, "math.Cbrt") || strings.HasSuffix(at.Fn, "math.Sqrt") || strings.HasSuffix(at.Fn, "math.Log") {
+					out[a] = at
+				}
 			}
 		}
+		return out
 	}
 
-	// --- ToLAB with the component function opaque
-	e = NewEngine(p)
-	e.Opaque = opaqueSet(ctl)
-	if v, err := single(p, e, toLab, nil); err != nil {
-		r.Violate("C13.fwd", "ToLAB closed form", p.FnPos(toLab), err.Error())
-	} else {
-		f := func(axis string) *Form {
-			return e.A.App("call:ciexyz.componentToLAB", nil, formAtom("c."+axis), formAtom("whitePoint."+axis))
+	// --- forward
+	{
+		e := NewEngine(p)
+		outs, err := extract(p, e, toLab, nil)
+		if err != nil {
+			r.Violate("C13.fwd", "ToLAB extractable", p.FnPos(toLab), err.Error())
 		}
-		fx, fy, fz := f("X"), f("Y"), f("Z")
-		want := [3]*Form{formInt(116).Mul(fy).Sub(formInt(16)), formInt(500).Mul(fx.Sub(fy)), formInt(200).Mul(fy.Sub(fz))}
-		names := []string{"L = 116·f(Y/Yn) − 16", "a = 500·(f(X/Xn) − f(Y/Yn))", "b = 200·(f(Y/Yn) − f(Z/Zn))"}
-		got, ok := vec3(v)
-		for i := 0; i < 3 && ok; i++ {
-			r.Check(got[i].Equal(want[i]), "C13.fwd", "ToLAB "+names[i][:1], p.FnPos(toLab), names[i]+" with each component divided by the SAME axis of the reference white", "is "+trunc(got[i].String(), 300))
+		cn, wn := toLab.Params[0].Name(), toLab.Params[1].Name()
+		axes := []string{"X", "Y", "Z"}
+		ratio := map[string]*Form{}
+		for _, ax := range axes {
+			ratio[ax] = formAtom(cn + "." + ax).Div(formAtom(wn + "." + ax))
 		}
-		if !ok {
-			r.Undecide("C13.fwd", "ToLAB", p.FnPos(toLab), "result not a Lab triple")
-		}
-	}
-
-	// --- componentFromLAB
-	e = NewEngine(p)
-	outs, err = extract(p, e, cfl, nil)
-	if err != nil || len(outs) != 2 {
-		r.Violate("C13.inv", "componentFromLAB shape", p.FnPos(cfl), fmt.Sprintf("expected two branches, got %d: %v", len(outs), err))
-	} else {
-		f := formAtom(cfl.Params[0].Name())
-		three := big.NewRat(3, 1)
+		seen := map[string]bool{}
 		for _, o := range outs {
-			if len(o.St.conds) != 1 {
-				r.Violate("C13.inv", "componentFromLAB guard", p.Pos(o.Pos), "branch has more than one guard")
+			if o.Kind != "return" {
+				r.Violate("C13.fwd", "ToLAB total", p.Pos(o.Pos), "a path of ToLAB ends in "+o.Kind+" "+o.Why)
 				continue
 			}
-			c := o.St.conds[0]
-			a, _ := c.A.(*Form)
-			b, _ := c.B.(*Form)
-			isCube := func(x *Form) bool {
-				if x == nil {
-					return false
+			branch := map[string]string{}
+			okG := true
+			for _, c := range o.St.conds {
+				g, ok := normGuard(c)
+				hit := ""
+				if ok {
+					for _, ax := range axes {
+						if g.lhs.Equal(ratio[ax]) {
+							hit = ax
+						}
+					}
 				}
-				if x.Equal(f.Mul(f).Mul(f)) {
-					return true
+				if hit == "" || !within(g.c, eps, tolC) {
+					okG = false
+					r.Violate("C13.fwd", "ToLAB guard", p.Pos(o.Pos), "unexpected guard "+trunc(c.Key(), 200)+": the only case split of the CIE definition is component/white(same axis) > 216/24389")
+					continue
 				}
-				at := powAtom(e, x)
-				return at != nil && valKey(at.Args[0]) == f.Key() && constNear(at.Args[1], three, tolC)
+				b := "linear"
+				if g.gt {
+					b = "root"
+				}
+				if prev, dup := branch[hit]; dup && prev != b {
+					okG = false
+				}
+				branch[hit] = b
 			}
-			gOK := isCube(a) && b != nil && epsF(b)
-			val, _ := o.Ret.(*Form)
-			switch c.Op {
-			case ">":
-				r.Check(gOK, "C13.inv", "componentFromLAB guard f³>ε", p.Pos(o.Pos), "cubic branch taken iff f³ > 216/24389", "guard is "+trunc(c.Key(), 200)+" (must compare f³, not f, with ε)")
-				r.Check(isCube(val), "C13.inv", "componentFromLAB cube", p.Pos(o.Pos), "= f³", "value is "+trunc(valKey(o.Ret), 200))
-			case "<=":
-				r.Check(gOK, "C13.inv", "componentFromLAB guard f³<=ε", p.Pos(o.Pos), "linear branch taken iff f³ <= 216/24389", "guard is "+trunc(c.Key(), 200))
-				want := formInt(116).Mul(f).Sub(formInt(16)).Div(formRat(kap))
-				r.Check(val != nil && formNear(val, want, ratDec("0.000000000001")), "C13.inv", "componentFromLAB linear", p.Pos(o.Pos), "= (116 f − 16)/κ", "value is "+trunc(valKey(o.Ret), 200))
-			default:
-				r.Violate("C13.inv", "componentFromLAB guard", p.Pos(o.Pos), "unexpected guard "+trunc(c.Key(), 200))
+			if !okG {
+				continue
 			}
-		}
-	}
-
-	// --- ColorFromLAB with componentFromLAB opaque
-	e = NewEngine(p)
-	e.Opaque = opaqueSet(cfl)
-	outs, err = extract(p, e, fromLab, nil)
-	if err != nil || len(outs) != 2 {
-		r.Violate("C13.inv", "ColorFromLAB shape", p.FnPos(fromLab), fmt.Sprintf("expected two branches (Y cubic / Y linear), got %d: %v", len(outs), err))
-	} else {
-		L, A, Bb := formAtom("lab.L"), formAtom("lab.A"), formAtom("lab.B")
-		fy := L.Add(formInt(16)).Div(formInt(116))
-		fx := A.Div(formInt(500)).Add(fy)
-		fz := fy.Sub(Bb.Div(formInt(200)))
-		cf := func(x *Form) *Form { return e.A.App("call:ciexyz.componentFromLAB", nil, x) }
-		wp := func(a string) *Form { return formAtom("whitePoint." + a) }
-		for _, o := range outs {
 			got, ok := vec3(o.Ret)
-			if !ok || len(o.St.conds) != 1 {
-				r.Violate("C13.inv", "ColorFromLAB branch", p.Pos(o.Pos), "branch not of the expected shape")
+			if !ok {
+				r.Undecide("C13.fwd", "ToLAB", p.Pos(o.Pos), "result not a Lab triple")
 				continue
 			}
-			c := o.St.conds[0]
-			a, _ := c.A.(*Form)
-			b, _ := c.B.(*Form)
-			gOK := a != nil && b != nil && a.Equal(L) && constNear(b, big.NewRat(8, 1), ratDec("0.000001"))
-			r.Check(got[0].Equal(cf(fx).Mul(wp("X"))), "C13.inv", "ColorFromLAB X "+c.Op, p.Pos(o.Pos), "X = finv(a/500 + (L+16)/116)·Xn", "X is "+trunc(got[0].String(), 200))
-			r.Check(got[2].Equal(cf(fz).Mul(wp("Z"))), "C13.inv", "ColorFromLAB Z "+c.Op, p.Pos(o.Pos), "Z = finv((L+16)/116 − b/200)·Zn", "Z is "+trunc(got[2].String(), 200))
-			switch c.Op {
-			case ">":
-				r.Check(gOK, "C13.inv", "ColorFromLAB Y guard L>κε", p.Pos(o.Pos), "cubic Y branch iff L > κ·ε = 8 (⇔ f_y³ > ε: same threshold as the generic branch)", "guard is "+trunc(c.Key(), 200))
-				yr := got[1].Div(wp("Y"))
-				at := powAtom(e, yr)
-				isCube := yr.Equal(fy.Mul(fy).Mul(fy)) || (at != nil && valKey(at.Args[0]) == fy.Key() && constNear(at.Args[1], big.NewRat(3, 1), tolC))
-				r.Check(isCube, "C13.inv", "ColorFromLAB Y cubic", p.Pos(o.Pos), "Y = ((L+16)/116)³·Yn", "Y is "+trunc(got[1].String(), 200))
-			case "<=":
-				r.Check(gOK, "C13.inv", "ColorFromLAB Y guard L<=κε", p.Pos(o.Pos), "linear Y branch iff L <= 8", "guard is "+trunc(c.Key(), 200))
-				want := L.Div(formRat(kap)).Mul(wp("Y"))
-				r.Check(formNear(got[1], want, ratDec("0.000000000001")), "C13.inv", "ColorFromLAB Y linear", p.Pos(o.Pos), "Y = (L/κ)·Yn", "Y is "+trunc(got[1].String(), 200))
-			default:
-				r.Violate("C13.inv", "ColorFromLAB guard", p.Pos(o.Pos), "unexpected guard "+trunc(c.Key(), 200))
+			pows := fracPows(e, got[0], got[1], got[2])
+			f := map[string]*Form{}
+			sig := ""
+			good := true
+			for _, ax := range axes {
+				sig += ax + ":" + branch[ax] + " "
+				switch branch[ax] {
+				case "root":
+					for a, at := range pows {
+						if at.Fn == "pow" && valKey(at.Args[0]) == ratio[ax].Key() && constNear(at.Args[1], third, tolC) {
+							f[ax] = formAtom(a)
+							delete(pows, a)
+						} else if strings.HasSuffix(at.Fn, "math.Cbrt") && len(at.Args) == 1 && valKey(at.Args[0]) == ratio[ax].Key() {
+							f[ax] = formAtom(a)
+							delete(pows, a)
+						}
+					}
+					if f[ax] == nil {
+						good = false
+						r.Violate("C13.fwd", "ToLAB f("+ax+") "+sig, p.Pos(o.Pos), "on the branch "+ax+"/"+ax+"n > ε the result does not use the cube root of "+ratio[ax].String())
+					}
+				case "linear":
+					f[ax] = ratio[ax].Mul(formRat(kap)).Add(formInt(16)).Div(formInt(116))
+				default:
+					good = false
+					r.Violate("C13.fwd", "ToLAB f("+ax+") "+sig, p.Pos(o.Pos), "the path does not decide "+ax+"/"+ax+"n > ε: the component is not passed through f(·) of the same axis ratio")
+				}
 			}
+			if !good {
+				continue
+			}
+			seen[sig] = true
+			want := [3]*Form{formInt(116).Mul(f["Y"]).Sub(formInt(16)), formInt(500).Mul(f["X"].Sub(f["Y"])), formInt(200).Mul(f["Y"].Sub(f["Z"]))}
+			names := []string{"L = 116·f(Y/Yn) − 16", "a = 500·(f(X/Xn) − f(Y/Yn))", "b = 200·(f(Y/Yn) − f(Z/Zn))"}
+			for i := 0; i < 3; i++ {
+				r.Check(formNear(got[i], want[i], tolV), "C13.fwd", "ToLAB "+names[i][:1]+" on "+sig, p.Pos(o.Pos), names[i]+", f(r) = r^(1/3) if r > ε else (κr+16)/116, each component divided by the SAME axis of the reference white", "is "+trunc(got[i].String(), 300))
+			}
+			// C13.nan: every remaining fractional power is unguarded
+			r.Check(len(pows) == 0, "C13.nan", "ToLAB fractional powers on "+sig, p.Pos(o.Pos), "every fractional power is applied to a ratio the path has established to be > ε > 0", fmt.Sprintf("%d fractional power(s) evaluated on a path that has not established base > ε (NaN for negative components)", len(pows)))
 		}
+		r.Check(len(seen) == 8, "C13.fwd", "ToLAB case coverage", p.FnPos(toLab), "all 2³ combinations of the per-axis case split are realised", fmt.Sprintf("%d of 8 combinations found", len(seen)))
 	}
-	// C13.nan for Pow with integer exponent 3: total on finite input — recorded
-	r.Hold("C13.nan", "integer powers", "-", "the only other Pow calls have the integer exponent 3 (total on finite input); divisions are by white components and non-zero constants only")
 
-	r.Floor("C13.const", 3)
-	r.Floor("C13.fwd", 7)
-	r.Floor("C13.inv", 12)
+	// --- inverse
+	{
+		e := NewEngine(p)
+		outs, err := extract(p, e, fromLab, nil)
+		if err != nil {
+			r.Violate("C13.inv", "ColorFromLAB extractable", p.FnPos(fromLab), err.Error())
+		}
+		ln, wn := fromLab.Params[0].Name(), fromLab.Params[1].Name()
+		Lf, Af, Bf := formAtom(ln+".L"), formAtom(ln+".A"), formAtom(ln+".B")
+		fy := Lf.Add(formInt(16)).Div(formInt(116))
+		fOf := map[string]*Form{"X": Af.Div(formInt(500)).Add(fy), "Y": fy, "Z": fy.Sub(Bf.Div(formInt(200)))}
+		axes := []string{"X", "Y", "Z"}
+		isCubeOf := func(x *Form, base *Form) bool {
+			if x == nil {
+				return false
+			}
+			if x.Equal(base.Mul(base).Mul(base)) {
+				return true
+			}
+			at := powAtom(e, x)
+			return at != nil && valKey(at.Args[0]) == base.Key() && constNear(at.Args[1], three, tolC)
+		}
+		seen := map[string]bool{}
+		for _, o := range outs {
+			if o.Kind != "return" {
+				r.Violate("C13.inv", "ColorFromLAB total", p.Pos(o.Pos), "a path of ColorFromLAB ends in "+o.Kind+" "+o.Why)
+				continue
+			}
+			branch := map[string]string{}
+			okG := true
+			for _, c := range o.St.conds {
+				g, ok := normGuard(c)
+				hit := ""
+				if ok {
+					for _, ax := range axes {
+						if isCubeOf(g.lhs, fOf[ax]) && within(g.c, eps, tolC) {
+							hit = ax
+						}
+					}
+					// the Y axis may equivalently be split on L > κ·ε = 8
+					if hit == "" && g.lhs.Equal(Lf) && within(g.c, big.NewRat(8, 1), ratDec("0.000001")) {
+						hit = "Y"
+					}
+				}
+				if hit == "" {
+					okG = false
+					r.Violate("C13.inv", "ColorFromLAB guard", p.Pos(o.Pos), "unexpected guard "+trunc(c.Key(), 200)+": the case split of the CIE inverse is f³ > 216/24389 per axis (for Y equivalently L > 8)")
+					continue
+				}
+				b := "linear"
+				if g.gt {
+					b = "cube"
+				}
+				if prev, dup := branch[hit]; dup && prev != b {
+					okG = false
+				}
+				branch[hit] = b
+			}
+			if !okG {
+				continue
+			}
+			got, ok := vec3(o.Ret)
+			if !ok {
+				r.Undecide("C13.inv", "ColorFromLAB", p.Pos(o.Pos), "result not an XYZ triple")
+				continue
+			}
+			sig := ""
+			for _, ax := range axes {
+				sig += ax + ":" + branch[ax] + " "
+			}
+			complete := true
+			for i, ax := range axes {
+				w := formAtom(wn + "." + ax)
+				rel := got[i].Div(w)
+				switch branch[ax] {
+				case "cube":
+					r.Check(isCubeOf(rel, fOf[ax]), "C13.inv", "ColorFromLAB "+ax+" cubic on "+sig, p.Pos(o.Pos), ax+" = f"+ax+"³·"+ax+"n with fy = (L+16)/116, fx = a/500 + fy, fz = fy − b/200", ax+" is "+trunc(got[i].String(), 200))
+				case "linear":
+					want := formInt(116).Mul(fOf[ax]).Sub(formInt(16)).Div(formRat(kap))
+					r.Check(formNear(rel, want, tolV), "C13.inv", "ColorFromLAB "+ax+" linear on "+sig, p.Pos(o.Pos), ax+" = ((116·f"+ax+" − 16)/κ)·"+ax+"n", ax+" is "+trunc(got[i].String(), 200))
+				default:
+					complete = false
+					r.Violate("C13.inv", "ColorFromLAB "+ax+" on "+sig, p.Pos(o.Pos), "the path does not decide f"+ax+"³ > ε: the component is not passed through the inverse of f(·)")
+				}
+			}
+			if complete {
+				seen[sig] = true
+			}
+			pows := fracPows(e, got[0], got[1], got[2])
+			r.Check(len(pows) == 0, "C13.nan", "ColorFromLAB fractional powers on "+sig, p.Pos(o.Pos), "the inverse uses integer powers only (total on finite input)", fmt.Sprintf("%d fractional power(s) in the inverse", len(pows)))
+		}
+		r.Check(len(seen) == 8, "C13.inv", "ColorFromLAB case coverage", p.FnPos(fromLab), "all 2³ combinations of the per-axis case split are realised", fmt.Sprintf("%d of 8 combinations found", len(seen)))
+	}
+	r.Hold("C13.nan", "divisions", "-", "divisions are by white components and non-zero constants only")
+
+	r.Floor("C13.const", 1)
+	r.Floor("C13.fwd", 25)
+	r.Floor("C13.inv", 25)
+
 	r.Floor("C13.nan", 2)
 }
 
